@@ -151,8 +151,11 @@ where
         self.cap = new_sz;
         let old = mem::replace(&mut self.tbl, vec![HashTableElement::default(); new_sz]);
         let c = self.cap;
-        for i in old.iter() {
-            propagate(&mut self.tbl, self.cap, i.clone(), (i.hash as usize) % c);
+        // only re-insert live entries, each starting a fresh probe sequence
+        for i in old.iter().filter(|i| i.is_occupied()) {
+            let mut itm = i.clone();
+            itm.psl = 0;
+            propagate(&mut self.tbl, self.cap, itm, (i.hash as usize) % c);
         }
     }
 
